@@ -659,7 +659,7 @@ bool_t ec2SeemsValidGroup(const ec_o* ec, void* stack)
 	wwFlipBit(t1, gf2Deg(ec->f));
 	wwFlipBit(t1, gf2Deg(ec->f) + 2);
 	// условие Хассе: t3 <= 4 2^m?
-	return wwCmp2(t3, 2 * n, t3, ec->f->n + 1) <= 0;
+	return wwCmp2(t3, 2 * n, t1, ec->f->n + 1) <= 0;
 }
 
 size_t ec2SeemsValidGroup_deep(size_t n, size_t f_deep)
